@@ -308,3 +308,518 @@ Proof.
     f_equal. unfold merge_with_ts; cbn [try_merge]. f_equal.
     apply (hash_merge_newer (sh_time s)); [exact Hv2|exact B].
 Qed.
+
+(* ================= Part D: nodes, histories, convergence ================= *)
+
+Lemma stamp_merge_time_max a b : st_time (stamp_merge a b) = N.max (st_time a) (st_time b).
+Proof. apply stamp_merge_time. Qed.
+
+(* Inv2 is preserved by every step (given Inv and well-formed input) *)
+Lemma step_inv2 s e s1 od :
+  step s e = (s1, od) → Inv s → Inv2 s → wf_event e → sh_ovf s1 = false → Inv2 s1.
+Proof.
+  intros Hstep HI HI2 Hwf Ho.
+  destruct e as [k val exp|k|k fs|k fs|k v|k v]; cbn [step] in Hstep.
+  - set (v0 := default _ _) in *. pose proof (rv_set_issue s v0 val) as Hiss.
+    pose proof (rv_set_ok s v0 val) as Hok.
+    destruct (rv_set s v0 val) as [s' v1]. injection Hstep as <- <-. cbn [fst snd] in *.
+    change (sh_ovf s' = false) in Ho.
+    destruct (Hiss Ho) as [E _]. destruct (Hok Ho) as (_ & Ht & Hk & Hr & _).
+    apply Inv2_put; [eapply Inv2_grow; eauto|]. cbn [with_exp rv_ts]. rewrite E. apply stamp_ltb_irrefl.
+  - destruct (sh_keys s !! k) as [v0|] eqn:Hk; [|by injection Hstep as <- <-].
+    pose proof (rv_delete_ok s v0 (HI k v0 Hk)) as Hok.
+    assert (Hcase : rv_ts (rv_delete s v0).2 = now (rv_delete s v0).1 ∨ (rv_delete s v0) = (s, v0)).
+    { unfold rv_delete. destruct (rv_crdt v0); simpl; auto. }
+    destruct (rv_delete s v0) as [s' v1]. injection Hstep as <- <-. cbn [fst snd] in *.
+    change (sh_ovf s' = false) in Ho.
+    destruct (Hok Ho) as (_ & Ht & Hkk & Hr & _).
+    apply Inv2_put; [eapply Inv2_grow; eauto|].
+    destruct Hcase as [E|E]; [rewrite E; apply stamp_ltb_irrefl|]. injection E as -> ->. by apply (HI2 k).
+  - set (v0 := match sh_keys s !! k with Some v => v | None => _ end) in *.
+    assert (Hv0 : times_le v0 (sh_time s) ∧ stamp_ltb (now s) (rv_ts v0) = false).
+    { unfold v0. destruct (sh_keys s !! k) eqn:Hk; [split; [by apply (HI k)|by apply (HI2 k)]|].
+      split; [split; simpl; [lia|apply map_Forall_empty]|]. simpl.
+      apply not_true_iff_false. rewrite stamp_ltb_spec. unfold now; simpl. lia. }
+    pose proof (hash_set_all_ok fs s v0 (proj1 Hv0)) as Hok.
+    pose proof (hash_set_all_issue fs s v0) as Hiss.
+    assert (Hnil : fs = [] → hash_set_all s v0 fs = (s, v0)) by (intros ->; done).
+    destruct (hash_set_all s v0 fs) as [s' v1]. injection Hstep as <- <-. cbn [fst snd] in *.
+    change (sh_ovf s' = false) in Ho.
+    destruct (Hok Ho) as (_ & Ht & Hkk & Hr & _).
+    apply Inv2_put; [eapply Inv2_grow; eauto|].
+    destruct fs as [|p fs']; [injection (Hnil eq_refl) as -> ->; apply Hv0|].
+    destruct (Hiss ltac:(done) Ho) as [E _]. rewrite E. apply stamp_ltb_irrefl.
+  - destruct (sh_keys s !! k) as [v0|] eqn:Hk; [|by injection Hstep as <- <-].
+    destruct (rv_crdt v0) eqn:Hc; try (by injection Hstep as <- <-).
+    pose proof (hash_delete_all_ok fs s v0 (HI k v0 Hk)) as Hok.
+    pose proof (hash_delete_all_outer fs s v0) as Hiss.
+    assert (Hnil : fs = [] → hash_delete_all s v0 fs = (s, v0)) by (intros ->; done).
+    destruct (hash_delete_all s v0 fs) as [s' v1]. injection Hstep as <- <-. cbn [fst snd] in *.
+    change (sh_ovf s' = false) in Ho.
+    destruct (Hok Ho) as (_ & Ht & Hkk & Hr & _).
+    apply Inv2_put; [eapply Inv2_grow; eauto|].
+    destruct fs as [|p fs']; [injection (Hnil eq_refl) as -> ->; by apply (HI2 k)|].
+    rewrite (Hiss ltac:(done)). apply stamp_ltb_irrefl.
+  - injection Hstep as <- <-. change (sh_ovf (clock_update s (rv_ts v)) = false) in Ho.
+    destruct (clock_update_spec s (rv_ts v) Ho) as (Ht & _ & Hr & Hk).
+    assert (HI2' : Inv2 (clock_update s (rv_ts v))) by (eapply Inv2_grow; eauto; lia).
+    apply Inv2_put; [done|]. apply stamp_le_time. unfold now; cbn [st_time]. rewrite Ht.
+    destruct (sh_keys _ !! k) eqn:Hl.
+    + cbn [rv_merge rv_ts]. rewrite stamp_merge_time_max. rewrite Hk in Hl. pose proof (HI k _ Hl) as [Hb _]. lia.
+    + lia.
+  - injection Hstep as <- <-. change (sh_ovf (clock_update s (rv_ts v)) = false) in Ho.
+    destruct (clock_update_spec s (rv_ts v) Ho) as (Ht & _ & Hr & Hk).
+    assert (HI2' : Inv2 (clock_update s (rv_ts v))) by (eapply Inv2_grow; eauto; lia).
+    apply Inv2_put; [done|]. apply stamp_le_time. unfold now; cbn [st_time]. rewrite Ht. lia.
+Qed.
+
+(* keys other than the event's key are untouched *)
+Lemma step_other_keys s e s1 od k :
+  step s e = (s1, od) → k ≠ ev_key e → sh_keys s1 !! k = sh_keys s !! k.
+Proof.
+  intros Hstep Hne.
+  assert (Hput : ∀ (x : shard) v, sh_keys (put x (ev_key e) v) !! k = sh_keys x !! k).
+  { intros x v. unfold put, set_keys; simpl. by rewrite lookup_insert_ne. }
+  destruct e as [k' val exp|k'|k' fs|k' fs|k' v|k' v]; cbn [step ev_key] in *.
+  - set (v0 := default _ _) in *. pose proof (rv_set_ok s v0 val) as Hok.
+    destruct (rv_set s v0 val) as [s' v1] eqn:E. injection Hstep as <- <-. rewrite Hput.
+    unfold rv_set in E. injection E as <- _. destruct (sh_causal (tick s)); simpl; unfold tick; destruct (_ =? _); done.
+  - destruct (sh_keys s !! k') as [v0|]; [|by injection Hstep as <- <-].
+    destruct (rv_delete s v0) as [s' v1] eqn:E. injection Hstep as <- <-. rewrite Hput.
+    unfold rv_delete in E. destruct (rv_crdt v0); injection E as <- _; try done.
+    unfold tick; destruct (_ =? _); done.
+  - set (v0 := match sh_keys s !! k' with Some v => v | None => _ end) in *.
+    assert (Q : ∀ fs s v, sh_keys (hash_set_all s v fs).1 = sh_keys s).
+    { clear. induction fs as [|[f x] fs IH]; intros s v; [done|]. rewrite hash_set_all_cons, IH.
+      unfold tick; destruct (_ =? _); done. }
+    specialize (Q fs s v0). destruct (hash_set_all s v0 fs) as [s' v1]. injection Hstep as <- <-.
+    rewrite Hput. simpl in Q. by rewrite Q.
+  - destruct (sh_keys s !! k') as [v0|]; [|by injection Hstep as <- <-].
+    destruct (rv_crdt v0); try (by injection Hstep as <- <-).
+    assert (Q : ∀ fs s v, sh_keys (hash_delete_all s v fs).1 = sh_keys s).
+    { clear. induction fs as [|f fs IH]; intros s v; [done|]. rewrite hash_delete_all_cons, IH.
+      unfold rv_hash_delete. destruct (rv_crdt v); try done. destruct (_ !! f); simpl; [|done].
+      unfold tick; destruct (_ =? _); done. }
+    specialize (Q fs s v0). destruct (hash_delete_all s v0 fs) as [s' v1]. injection Hstep as <- <-.
+    rewrite Hput. simpl in Q. by rewrite Q.
+  - injection Hstep as <- <-. rewrite Hput. unfold clock_update; destruct (_ =? _); done.
+  - injection Hstep as <- <-. rewrite Hput. unfold clock_update; destruct (_ =? _); done.
+Qed.
+
+Lemma step_causal s e s1 od : step s e = (s1, od) → sh_causal s1 = sh_causal s.
+Proof.
+  intros Hstep.
+  assert (Ht : ∀ x, sh_causal (tick x) = sh_causal x) by (intros x; unfold tick; destruct (_ =? _); done).
+  destruct e as [k' val exp|k'|k' fs|k' fs|k' v|k' v]; cbn [step] in *.
+  - unfold rv_set in Hstep. injection Hstep as <- _. destruct (sh_causal (tick s)) eqn:E; simpl; rewrite ?E; rewrite <- Ht; done.
+  - destruct (sh_keys s !! k') as [v0|]; [|by injection Hstep as <- _].
+    unfold rv_delete in Hstep. destruct (rv_crdt v0); injection Hstep as <- _; try done. apply Ht.
+  - assert (Q : ∀ fs s v, sh_causal (hash_set_all s v fs).1 = sh_causal s).
+    { clear -Ht. induction fs as [|[f x] fs IH]; intros s v; [done|]. by rewrite hash_set_all_cons, IH, Ht. }
+    match type of Hstep with context [hash_set_all s ?v0 fs] => specialize (Q fs s v0); destruct (hash_set_all s v0 fs) end.
+    injection Hstep as <- _. done.
+  - destruct (sh_keys s !! k') as [v0|]; [|by injection Hstep as <- _].
+    destruct (rv_crdt v0); try (by injection Hstep as <- _).
+    assert (Q : ∀ fs s v, sh_causal (hash_delete_all s v fs).1 = sh_causal s).
+    { clear -Ht. induction fs as [|f fs IH]; intros s v; [done|]. rewrite hash_delete_all_cons, IH.
+      unfold rv_hash_delete. destruct (rv_crdt v); try done. destruct (_ !! f); simpl; [apply Ht|done]. }
+    specialize (Q fs s v0). destruct (hash_delete_all s v0 fs). injection Hstep as <- _. done.
+  - injection Hstep as <- _. unfold put, clock_update; destruct (_ =? _); done.
+  - injection Hstep as <- _. unfold put, clock_update; destruct (_ =? _); done.
+Qed.
+
+(* a delta is "good" when it is in the class of its key and well formed *)
+Definition good (U : stamp → option lww) (K : list N → N) (k : list N) (d : rvalue) : Prop :=
+  in_class U (K k) d ∧ wf_value d.
+
+Section nodes.
+  Context (U : stamp → option lww) (K : list N → N).
+  Hypothesis HK : ∀ k, K k = 0 ∨ K k = 5.
+
+  Definition hist_of (n : node) (k : list N) : list rvalue := default [] (n_hist n !! k).
+  Definition hist_good (n : node) : Prop := ∀ k, Forall (good U K k) (hist_of n k).
+
+  Definition NodeInv (n : node) : Prop :=
+    sh_causal (n_sh n) = false ∧ Inv (n_sh n) ∧ Inv2 (n_sh n) ∧
+    ∀ k, sh_keys (n_sh n) !! k = fold_merge (hist_of n k).
+
+  Lemma NodeInv_init rid : NodeInv (node_init rid).
+  Proof.
+    split; [done|]. split; [apply Inv_init|]. split; [apply Inv2_init|].
+    intros k. unfold hist_of, node_init; simpl. by rewrite !lookup_empty.
+  Qed.
+
+  Lemma hist_of_push n k d k' x s b :
+    hist_of (Node x s (hist_push (n_hist n) k d) b) k' =
+    if decide (k = k') then hist_of n k ++ [d] else hist_of n k'.
+  Proof.
+    unfold hist_of, hist_push; simpl. destruct (decide (k = k')) as [->|Hne].
+    - by rewrite lookup_insert.
+    - by rewrite lookup_insert_ne.
+  Qed.
+
+  Lemma good_forall_class k l : Forall (good U K k) l → Forall (in_class U (K k)) l.
+  Proof. intros H. eapply Forall_impl; [exact H|]. by intros ? [? ?]. Qed.
+
+  (* delivery of a good delta *)
+  Lemma node_deliver_inv n k d :
+    NodeInv n → hist_good (node_deliver n k d) → sh_ovf (n_sh (node_deliver n k d)) = false →
+    NodeInv (node_deliver n k d).
+  Proof.
+    intros (Hc & HI & HI2 & Hst) Hg Ho. unfold node_deliver in *.
+    destruct (step (n_sh n) (ERemote k d)) as [s1 od] eqn:Hstep.
+    assert (Hn1 : ∃ x1 b1, (match sh_keys s1 !! k with
+              | Some m => let '(x1, bad) := materialise (n_x n) k m in Node x1 s1 (hist_push (n_hist n) k d) (n_glue_fail n || bad)
+              | None => Node (n_x n) s1 (hist_push (n_hist n) k d) (n_glue_fail n) end)
+              = Node x1 s1 (hist_push (n_hist n) k d) b1).
+    { destruct (sh_keys s1 !! k); [destruct (materialise _ _ _); eauto|eauto]. }
+    destruct Hn1 as (x1 & b1 & E). rewrite E in *. clear E. simpl in Ho.
+    assert (Hgd : good U K k d).
+    { specialize (Hg k). rewrite hist_of_push in Hg. rewrite decide_True in Hg by done.
+      apply Forall_app in Hg as [_ Hg]. by inversion Hg. }
+    assert (Hwf : wf_event (ERemote k d)) by (apply Hgd).
+    destruct (step_ok _ _ _ _ Hstep HI Hwf Ho) as (HI1 & _).
+    pose proof (step_inv2 _ _ _ _ Hstep HI HI2 Hwf Ho) as HI21.
+    split; [simpl; by rewrite (step_causal _ _ _ _ Hstep)|]. split; [done|]. split; [done|].
+    intros k'. rewrite hist_of_push. simpl. destruct (decide (k = k')) as [<-|Hne].
+    - cbn [step] in Hstep. injection Hstep as <- _.
+      unfold put, set_keys; simpl. rewrite lookup_insert.
+      assert (Hku : sh_keys (clock_update (n_sh n) (rv_ts d)) = sh_keys (n_sh n)).
+      { unfold clock_update. destruct (_ =? _); done. }
+      rewrite Hku, Hst. destruct (hist_of n k) as [|x xs] eqn:Hh; simpl; [done|].
+      by rewrite fold_left_app.
+    - rewrite (step_other_keys _ _ _ _ k' Hstep) by (simpl; congruence). apply Hst.
+  Qed.
+
+  (* a client command *)
+  Lemma node_exec_inv n c n1 r od :
+    node_exec n c = (n1, r, od) → NodeInv n → hist_good n1 → sh_ovf (n_sh n1) = false → NodeInv n1.
+  Proof.
+    intros Hex (Hc & HI & HI2 & Hst) Hg Ho. unfold node_exec in Hex.
+    destruct (xexec (n_x n) c) as [x1 r1] eqn:Hx.
+    destruct (record_post x1 c r1) as [e|] eqn:Hrec.
+    2:{ inversion Hex; subst. exact (conj Hc (conj HI (conj HI2 Hst))). }
+    assert (Hloc : is_local e = true).
+    { unfold record_post in Hrec.
+      destruct c; destruct r1; simpl in Hrec; try discriminate Hrec;
+        repeat match type of Hrec with
+               | (if ?b then _ else _) = _ => destruct b
+               | match ?b with _ => _ end = _ => destruct b
+               end; try discriminate Hrec; injection Hrec as <-; reflexivity. }
+    assert (Hwf : wf_event e) by (destruct e; try discriminate Hloc; exact I).
+    destruct (step (n_sh n) e) as [s1 od1] eqn:Hstep.
+    destruct od1 as [d|].
+    - inversion Hex; subst; clear Hex. simpl in Ho.
+      destruct (step_ok _ _ _ _ Hstep HI Hwf Ho) as (HI1 & _).
+      pose proof (step_inv2 _ _ _ _ Hstep HI HI2 Hwf Ho) as HI21.
+      split; [simpl; by rewrite (step_causal _ _ _ _ Hstep)|]. split; [done|]. split; [done|].
+      intros k'. rewrite hist_of_push. simpl. destruct (decide (ev_key e = k')) as [<-|Hne].
+      + (* the stored value is d; it equals the fold over the extended history *)
+        assert (Hd : sh_keys s1 !! ev_key e = Some d).
+        { destruct e; try discriminate Hloc; cbn [step ev_key] in *.
+          - destruct (rv_set _ _ _). injection Hstep as <- <-. unfold put, set_keys; simpl. by rewrite lookup_insert.
+          - destruct (sh_keys (n_sh n) !! k); [|discriminate]. destruct (rv_delete _ _). injection Hstep as <- <-.
+            unfold put, set_keys; simpl. by rewrite lookup_insert.
+          - destruct (hash_set_all _ _ _). injection Hstep as <- <-. unfold put, set_keys; simpl. by rewrite lookup_insert.
+          - destruct (sh_keys (n_sh n) !! k); [|discriminate]. destruct (rv_crdt r0); try discriminate.
+            destruct (hash_delete_all _ _ _). injection Hstep as <- <-. unfold put, set_keys; simpl. by rewrite lookup_insert. }
+        rewrite Hd. pose proof (Hst (ev_key e)) as Hcur.
+        destruct (hist_of n (ev_key e)) as [|x xs] eqn:Hh.
+        * done.
+        * simpl in Hcur. cbn [fold_merge app]. rewrite fold_left_app. cbn [fold_left]. f_equal. symmetry.
+          (* current value is in the class, hence plain and idempotent *)
+          assert (Hcls : in_class U (K (ev_key e)) (fold_left rv_merge xs x)).
+          { specialize (Hg (ev_key e)). rewrite hist_of_push in Hg. rewrite decide_True in Hg by done.
+            apply Forall_app in Hg as [Hg _]. rewrite Hh in Hg.
+            apply (fold_merge_in_class U (K (ev_key e)) (HK _) (x :: xs)); [by apply good_forall_class|done]. }
+          eapply (local_is_merge (n_sh n) e s1 d); eauto.
+          -- apply Hcls.
+          -- by apply (class_idem U (K (ev_key e))).
+      + rewrite (step_other_keys _ _ _ _ k' Hstep) by congruence. apply Hst.
+    - inversion Hex; subst; clear Hex. simpl in Ho.
+      (* no delta: the replication state did not change *)
+      assert (Hs : s1 = n_sh n).
+      { destruct e; try discriminate Hloc; cbn [step] in Hstep.
+        - destruct (rv_set _ _ _). discriminate.
+        - destruct (sh_keys (n_sh n) !! k); [destruct (rv_delete _ _); discriminate|by injection Hstep].
+        - destruct (hash_set_all _ _ _). discriminate.
+        - destruct (sh_keys (n_sh n) !! k); [|by injection Hstep]. destruct (rv_crdt r0); try (by injection Hstep).
+          destruct (hash_delete_all _ _ _). discriminate. }
+      subst s1. exact (conj Hc (conj HI (conj HI2 Hst))).
+  Qed.
+End nodes.
+
+(* ---------- monotonicity along a run: histories only grow, overflow is sticky ---------- *)
+Definition node_le (a b : node) : Prop :=
+  (∀ k, hist_of a k `prefix_of` hist_of b k) ∧ (sh_ovf (n_sh a) = true → sh_ovf (n_sh b) = true).
+
+Lemma node_le_refl a : node_le a a.
+Proof. split; [intros k; done|done]. Qed.
+Lemma node_le_trans a b c : node_le a b → node_le b c → node_le a c.
+Proof. intros [H1 H2] [H3 H4]. split; [intros k; etrans; eauto|auto]. Qed.
+
+Lemma hist_push_prefix n k d k' x s b :
+  hist_of n k' `prefix_of` hist_of (Node x s (hist_push (n_hist n) k d) b) k'.
+Proof.
+  rewrite hist_of_push. destruct (decide (k = k')) as [->|]; [by apply prefix_app_r|done].
+Qed.
+
+Lemma node_exec_le n c n1 r od : node_exec n c = (n1, r, od) → node_le n n1.
+Proof.
+  unfold node_exec. destruct (xexec (n_x n) c) as [x1 r1].
+  destruct (record_post x1 c r1) as [e|].
+  2:{ intros H; inversion H; subst. split; [intros k; done|done]. }
+  destruct (step (n_sh n) e) as [s1 od1] eqn:Hs.
+  pose proof (step_ovf (n_sh n) e) as Hov. rewrite Hs in Hov. simpl in Hov.
+  destruct od1 as [d|]; intros H; inversion H; subst; (split; [intros k|exact Hov]).
+  - apply hist_push_prefix.
+  - done.
+Qed.
+
+Lemma node_deliver_le n k d : node_le n (node_deliver n k d).
+Proof.
+  unfold node_deliver. destruct (step (n_sh n) (ERemote k d)) as [s1 od1] eqn:Hs.
+  pose proof (step_ovf (n_sh n) (ERemote k d)) as Hov. rewrite Hs in Hov. simpl in Hov.
+  destruct (sh_keys s1 !! k); [destruct (materialise _ _ _)|]; (split; [intros k'; apply hist_push_prefix|exact Hov]).
+Qed.
+
+Lemma cstep_le c log e c1 l1 i n0 :
+  cstep c log e = (c1, l1) → c !! i = Some n0 → ∃ n1, c1 !! i = Some n1 ∧ node_le n0 n1.
+Proof.
+  intros Hs Hi. destruct e as [j cmd|j k d]; simpl in Hs.
+  - destruct (c !! j) as [n|] eqn:Hj; [|injection Hs as <- <-; eauto using node_le_refl].
+    destruct (node_exec n cmd) as [[n1 r] od] eqn:Hx. injection Hs as <- _.
+    destruct (decide (i = j)) as [->|Hne].
+    + rewrite Hj in Hi. injection Hi as <-. exists n1. split; [|by eapply node_exec_le].
+      apply list_lookup_insert. by eapply lookup_lt_Some.
+    + exists n0. split; [by rewrite list_lookup_insert_ne|apply node_le_refl].
+  - destruct (c !! j) as [n|] eqn:Hj; [|injection Hs as <- <-; eauto using node_le_refl].
+    injection Hs as <- _. destruct (decide (i = j)) as [->|Hne].
+    + rewrite Hj in Hi. injection Hi as <-. exists (node_deliver n k d). split; [|apply node_deliver_le].
+      apply list_lookup_insert. by eapply lookup_lt_Some.
+    + exists n0. split; [by rewrite list_lookup_insert_ne|apply node_le_refl].
+Qed.
+
+Lemma crun_le evs : ∀ c log cf lf i n0,
+  crun c log evs = (cf, lf) → c !! i = Some n0 → ∃ nf, cf !! i = Some nf ∧ node_le n0 nf.
+Proof.
+  induction evs as [|e evs IH]; intros c log cf lf i n0 Hr Hi; simpl in Hr.
+  - injection Hr as <- <-. eauto using node_le_refl.
+  - destruct (cstep c log e) as [c1 l1] eqn:Hs.
+    destruct (cstep_le _ _ _ _ _ _ _ Hs Hi) as (n1 & H1 & L1).
+    destruct (IH _ _ _ _ _ _ Hr H1) as (nf & Hf & Lf). eauto using node_le_trans.
+Qed.
+
+Lemma cstep_lookup_back c log e c1 l1 i n1 :
+  cstep c log e = (c1, l1) → c1 !! i = Some n1 → ∃ n0, c !! i = Some n0.
+Proof.
+  intros Hs Hi. assert (length c1 = length c).
+  { destruct e as [j cmd|j k d]; simpl in Hs.
+    - destruct (c !! j); [|by injection Hs as <- _]. destruct (node_exec _ _) as [[? ?] ?]. injection Hs as <- _. apply insert_length.
+    - destruct (c !! j); [|by injection Hs as <- _]. injection Hs as <- _. apply insert_length. }
+  apply lookup_lt_Some in Hi. rewrite H in Hi. by apply lookup_lt_is_Some_2 in Hi.
+Qed.
+
+Section cluster.
+  Context (U : stamp → option lww) (K : list N → N).
+  Hypothesis HK : ∀ k, K k = 0 ∨ K k = 5.
+
+  Definition final_ok (c : list node) : Prop :=
+    ∀ i ni, c !! i = Some ni → hist_good U K ni ∧ sh_ovf (n_sh ni) = false.
+
+  Lemma node_le_good a b : node_le a b → hist_good U K b → sh_ovf (n_sh b) = false →
+    hist_good U K a ∧ sh_ovf (n_sh a) = false.
+  Proof.
+    intros [Hp Ho] Hg Hb. split.
+    - intros k. destruct (Hp k) as [ext E]. specialize (Hg k). rewrite E in Hg. by apply Forall_app in Hg as [? _].
+    - apply not_ovf_before. intros Ex. rewrite (Ho Ex) in Hb. discriminate.
+  Qed.
+
+  Lemma crun_inv evs : ∀ c0 log0 c log,
+    crun c0 log0 evs = (c, log) →
+    (∀ i n0, c0 !! i = Some n0 → NodeInv n0) →
+    final_ok c →
+    ∀ i ni, c !! i = Some ni → NodeInv ni.
+  Proof.
+    induction evs as [|e evs IH]; intros c0 log0 c log Hr H0 Hf; simpl in Hr.
+    - injection Hr as <- <-. exact H0.
+    - destruct (cstep c0 log0 e) as [c1 l1] eqn:Hs.
+      apply (IH c1 l1 c log Hr); [|exact Hf].
+      intros i n1 Hi1.
+      (* what the final state says about n1 *)
+      destruct (crun_le _ _ _ _ _ _ _ Hr Hi1) as (nf & Hfi & Lf).
+      destruct (Hf i nf Hfi) as [Hgf Hof].
+      destruct (node_le_good _ _ Lf Hgf Hof) as [Hg1 Ho1].
+      destruct e as [j cmd|j k d]; simpl in Hs.
+      + destruct (c0 !! j) as [n|] eqn:Hj; [|injection Hs as <- <-; by apply (H0 i)].
+        destruct (node_exec n cmd) as [[n' r] od] eqn:Hx. injection Hs as <- _.
+        destruct (decide (i = j)) as [->|Hne].
+        * rewrite list_lookup_insert in Hi1 by (by eapply lookup_lt_Some). injection Hi1 as <-.
+          eapply (node_exec_inv U K HK); eauto.
+        * rewrite list_lookup_insert_ne in Hi1 by done. by apply (H0 i).
+      + destruct (c0 !! j) as [n|] eqn:Hj; [|injection Hs as <- <-; by apply (H0 i)].
+        injection Hs as <- _. destruct (decide (i = j)) as [->|Hne].
+        * rewrite list_lookup_insert in Hi1 by (by eapply lookup_lt_Some). injection Hi1 as <-.
+          apply (node_deliver_inv U K); eauto.
+        * rewrite list_lookup_insert_ne in Hi1 by done. by apply (H0 i).
+  Qed.
+
+  Lemma cluster_init_inv n i n0 : cluster_init n !! i = Some n0 → NodeInv n0.
+  Proof.
+    unfold cluster_init. rewrite list_lookup_fmap. destruct (seq 0 n !! i); simpl; [|done].
+    intros [= <-]. apply NodeInv_init.
+  Qed.
+
+  (* Strong eventual consistency of the replication state: in any run of the cluster (any
+     interleaving of client commands at any nodes and deliveries of any deltas, any number of
+     times, in any order), two nodes that have incorporated the same SET of deltas for a key
+     hold the same replicated value for it. *)
+  Theorem sec_lemma n evs c log i j ni nj k :
+    crun (cluster_init n) [] evs = (c, log) → final_ok c →
+    c !! i = Some ni → c !! j = Some nj →
+    same_set (hist_of ni k) (hist_of nj k) →
+    sh_keys (n_sh ni) !! k = sh_keys (n_sh nj) !! k.
+  Proof.
+    intros Hr Hf Hi Hj Hs.
+    pose proof (crun_inv evs _ _ _ _ Hr (cluster_init_inv n) Hf) as Hinv.
+    destruct (Hinv i ni Hi) as (_ & _ & _ & Si). destruct (Hinv j nj Hj) as (_ & _ & _ & Sj).
+    rewrite Si, Sj.
+    apply (fold_merge_same_set U (K k) (HK k)); [| |exact Hs].
+    - apply good_forall_class. apply (Hf i ni Hi).
+    - apply good_forall_class. apply (Hf j nj Hj).
+  Qed.
+
+End cluster.
+
+(* ---------- the agreed value of a string key is the write with the greatest stamp ---------- *)
+Definition reg_of (v : rvalue) : option lww := match rv_crdt v with CLww r => Some r | _ => None end.
+
+Lemma fold_lww_max xs : ∀ x r0,
+  reg_of x = Some r0 → Forall (λ d, ∃ r, reg_of d = Some r) xs →
+  ∃ r, reg_of (fold_left rv_merge xs x) = Some r ∧
+       (∃ d, In d (x :: xs) ∧ reg_of d = Some r) ∧
+       ∀ d r', In d (x :: xs) → reg_of d = Some r' → stamp_ltb (lw_ts r) (lw_ts r') = false.
+Proof.
+  induction xs as [|a xs IH]; intros x r0 Hx Hxs; simpl.
+  - exists r0. split; [done|]. split; [exists x; split; [by left|done]|].
+    intros d r' [<-|[]] Hr. rewrite Hx in Hr. injection Hr as <-. apply stamp_ltb_irrefl.
+  - inversion Hxs as [|? ? [ra Ha] Hxs']; subst.
+    assert (Hm : reg_of (rv_merge x a) = Some (lww_merge r0 ra)).
+    { unfold reg_of in *. unfold rv_merge, merge_with_ts; simpl.
+      destruct (rv_crdt x); try discriminate Hx. destruct (rv_crdt a); try discriminate Ha.
+      injection Hx as ->. injection Ha as ->. done. }
+    destruct (IH (rv_merge x a) _ Hm Hxs') as (r & Hr & (d & Hd & Hdr) & Hmax).
+    exists r. split; [done|]. split.
+    + destruct Hd as [<-|Hd].
+      * rewrite Hm in Hdr. injection Hdr as <-. unfold lww_merge. destruct (stamp_ltb _ _).
+        -- exists a. split; [right; by left|done].
+        -- exists x. split; [by left|done].
+      * exists d. split; [right; by right|done].
+    + intros d' r' Hd' Hr'.
+      assert (Hge : stamp_ltb (lw_ts r) (lw_ts (lww_merge r0 ra)) = false).
+      { apply (Hmax (rv_merge x a)); [by left|done]. }
+      destruct Hd' as [<-|[<-|Hd']].
+      * rewrite Hx in Hr'. injection Hr' as <-.
+        apply not_true_iff_false. intros Hlt. apply not_true_iff_false in Hge. apply Hge.
+        unfold lww_merge. destruct (stamp_ltb (lw_ts r0) (lw_ts ra)) eqn:E; [|done].
+        eapply stamp_ltb_trans; eauto.
+      * rewrite Ha in Hr'. injection Hr' as <-.
+        apply not_true_iff_false. intros Hlt. apply not_true_iff_false in Hge. apply Hge.
+        unfold lww_merge. destruct (stamp_ltb (lw_ts r0) (lw_ts ra)) eqn:E; [done|].
+        destruct (stamp_trichotomy (lw_ts r0) (lw_ts ra)) as [H|[H|H]]; [congruence|by rewrite H|].
+        eapply stamp_ltb_trans; eauto.
+      * apply (Hmax d'); [by right|done].
+Qed.
+
+Theorem lww_winner_lemma (U : stamp → option lww) l v :
+  Forall (in_class U 0) l → fold_merge l = Some v →
+  ∃ r, reg_of v = Some r ∧ (∃ d, In d l ∧ reg_of d = Some r) ∧
+       ∀ d r', In d l → reg_of d = Some r' → stamp_ltb (lw_ts r) (lw_ts r') = false.
+Proof.
+  intros Hl Hf. destruct l as [|x xs]; [done|]. injection Hf as <-.
+  assert (Hreg : ∀ d, in_class U 0 d → ∃ r, reg_of d = Some r).
+  { intros d (Hk & _). unfold reg_of. destruct (rv_crdt d); try discriminate Hk. eauto. }
+  inversion Hl as [|? ? Hx Hxs]; subst.
+  destruct (Hreg x Hx) as [r0 Hr0].
+  apply (fold_lww_max xs x r0 Hr0). eapply Forall_impl; [exact Hxs|]. exact Hreg.
+Qed.
+
+(* ================= witnesses ================= *)
+(* a read, as data without map internals: (0,[]) nothing, (1,[(s,s)]) string s, (2,fields) hash *)
+Definition showx (r : xread) : N * list (list N * list N) :=
+  match r with RdNone => (0, []) | RdStr s => (1, [(s, s)]) | RdHash h => (2, map_to_list h) end.
+
+Definition kS : list N := [115].   (* "s" *)
+Definition kH : list N := [104].   (* "h" *)
+
+(* Non-vacuity: two nodes write the same string key concurrently, a third only listens; the
+   deltas arrive in different orders (one twice); all three end up equal. *)
+Definition ex_evs6 : list cev :=
+  [CClient 0 (CSet kS [97] false false); CClient 1 (CSet kS [98] false false)].
+Definition ex_d0 : rvalue := RV (CLww (Lww (Some [97]) (Stamp 1 1) false)) None None (Stamp 1 1) None.
+Definition ex_d1 : rvalue := RV (CLww (Lww (Some [98]) (Stamp 1 2) false)) None None (Stamp 1 2) None.
+Definition ex_deliveries : list cev :=
+  [CDeliver 1 kS ex_d0; CDeliver 0 kS ex_d1; CDeliver 2 kS ex_d1; CDeliver 2 kS ex_d0; CDeliver 2 kS ex_d1].
+Definition ex_U (st : stamp) : option lww :=
+  if bool_decide (st = Stamp 1 1) then Some (Lww (Some [97]) (Stamp 1 1) false)
+  else if bool_decide (st = Stamp 1 2) then Some (Lww (Some [98]) (Stamp 1 2) false) else None.
+
+Lemma ex_run6 :
+  let '(c, log) := crun (cluster_init 3) [] (ex_evs6 ++ ex_deliveries) in
+  log = [(0%nat, kS, ex_d0); (1%nat, kS, ex_d1)] ∧
+  map (λ n, hist_of n kS) c = [[ex_d0; ex_d1]; [ex_d1; ex_d0]; [ex_d1; ex_d0; ex_d1]] ∧
+  map (λ n, showx (serve n kS)) c = [(1, [([98],[98])]); (1, [([98],[98])]); (1, [([98],[98])])] ∧
+  map (λ n, bool_decide (sh_keys (n_sh n) !! kS = sh_keys (n_sh (default (node_init 0) (c !! 0%nat))) !! kS)) c = [true; true; true].
+Proof. vm_compute. done. Qed.
+
+Lemma ex_good6 : Forall (good ex_U (λ _, 0) kS) [ex_d0; ex_d1].
+Proof.
+  repeat constructor; try done; simpl; lia.
+Qed.
+
+(* Known finding C06-expiry: record_write OVERWRITES expiry_ms while merge takes the MAXIMUM, so
+   a later SET without (or with a shorter) TTL leaves the writer and its peers with different
+   expiry although both have incorporated the same two deltas. *)
+Lemma expiry_witness :
+  let '(s1, ds) := run (shard_init 1 false) [EWrite kS [97] (Some 5000); EWrite kS [98] None] in
+  let '(s2, _) := run (shard_init 2 false) (map (ERemote kS) ds) in
+  option_map rv_exp (sh_keys s1 !! kS) = Some None ∧
+  option_map rv_exp (sh_keys s2 !! kS) = Some (Some 5000).
+Proof. vm_compute. done. Qed.
+
+(* Known finding C06-del-nonstring: DEL of a hash key removes it from the executor of the node
+   that ran the command, but the replication state (and hence every peer) keeps the live hash:
+   same deltas incorporated everywhere, different answers. *)
+Definition del_evs : list cev :=
+  [CClient 0 (CHSet kH [([102], [118])])].
+Lemma del_nonstring_witness :
+  let '(c1, log1) := crun (cluster_init 2) [] del_evs in
+  match log1 with
+  | [(_, _, d)] =>
+      let '(c2, log2) := crun c1 log1 [CDeliver 1 kH d; CClient 0 (CDel kH)] in
+      match log2 with
+      | [_; (_, _, d2)] =>
+          let '(c3, _) := crun c2 log2 [CDeliver 1 kH d2] in
+          map (λ n, showx (serve n kH)) c3 = [(0, []); (2, [([102], [118])])] ∧
+          map (λ n, showx (state_says n kH)) c3 = [(2, [([102], [118])]); (2, [([102], [118])])]
+      | _ => False
+      end
+  | _ => False
+  end.
+Proof. vm_compute. done. Qed.
+
+(* Known finding C06-type-change: a remote hash delta arriving over a local string cannot be
+   materialised (the executor answers WRONGTYPE; a debug build asserts), so the node keeps
+   serving the string while its replication state holds the hash. *)
+Lemma type_change_witness :
+  let '(c1, log1) := crun (cluster_init 2) []
+     [CClient 0 (CHSet kS [([102], [118])]); CClient 0 (CHSet kS [([103], [119])]); CClient 1 (CSet kS [97] false false)] in
+  match log1 with
+  | [_; (_, _, dh); _] =>
+      let '(c2, _) := crun c1 log1 [CDeliver 1 kS dh] in
+      map n_glue_fail c2 = [false; true] ∧
+      map (λ n, showx (serve n kS)) c2 = [(2, [([102], [118]); ([103], [119])]); (1, [([97], [97])])] ∧
+      map (λ n, showx (state_says n kS)) c2 = [(2, [([102], [118]); ([103], [119])]); (2, [([102], [118]); ([103], [119])])]
+  | _ => False
+  end.
+Proof. vm_compute. done. Qed.
